@@ -987,7 +987,9 @@ class Cat(Composite):
             s["opt"]["split"] = rng.randrange(1, n)
             s["children"] = [_gen(rng, kind, n, n, batch, 0, dtype, allow=["Dense"])]
             return s
-        dims = [-2] + ([-1] if m >= 2 else []) + ([-3] if batch and batch[-1] >= 2 else [])
+        # any batch dimension of size >= 2 (the last one, -3, and - less often exercised upstream - the earlier ones)
+        L = len(batch)
+        dims = [-2] + ([-1] if m >= 2 else []) + [pos - L - 2 for pos in range(L) if batch[pos] >= 2]
         dim = rng.choice(dims)
         s["opt"]["mode"] = "cat"
         s["opt"]["dim"] = dim
@@ -998,8 +1000,9 @@ class Cat(Composite):
             k = rng.randrange(1, m)
             shapes = [(n, k, batch), (n, m - k, batch)]
         else:
-            k = rng.randrange(1, batch[-1])
-            shapes = [(n, m, list(batch[:-1]) + [k]), (n, m, list(batch[:-1]) + [batch[-1] - k])]
+            pos = dim + L + 2
+            k = rng.randrange(1, batch[pos])
+            shapes = [(n, m, list(batch[:pos]) + [k] + list(batch[pos + 1:])), (n, m, list(batch[:pos]) + [batch[pos] - k] + list(batch[pos + 1:]))]
         s["children"] = [
             _gen(rng, "rect", a, b, bb, depth - 1, dtype, deny=["Zero"] if i == 0 else []) for i, (a, b, bb) in enumerate(shapes)
         ]
